@@ -356,8 +356,21 @@ OBLIGATIONS += [
 ]
 
 
+def _token_addresses_fixed(ctx):
+    """the bSei and stSei token addresses cannot be changed once set, whatever the rest of the configuration is
+    (either, both or none of the two registered): world and claims of C20's hub_update_config obligation"""
+    from checks.c20 import ob_hub_update_config
+    return ob_hub_update_config(ctx)
+
+
+OBLIGATIONS.append(('hub_token_addresses_fixed', _token_addresses_fixed))
+
+
 def ORACLE(v, scn, out):
     key = v.get('key') or ''
+    if key.startswith('hub_update_config:'):
+        from checks.c20 import ORACLE as O20
+        return O20(v, scn, out)
     if key.endswith(':unauthorised'):
         return ['accepted: ' + str(out['result'])[:200]] if 'ok' in out.get('result', {}) else []
     return None
